@@ -574,11 +574,58 @@ def rule_moves(ctx, rule="T7-moves"):
     if b:
         ms, ls = moves_of(b)
         cp = [m for m in ms if m.kind.startswith("copy")]
+        # a clamp `len.min(new_capacity)` is the identity under realloc's contract, which is
+        # checked at every call site (realloc(capacity>=len))
+        contract = realloc_sites_keep_text(ctx, rule)
         if cp:
-            ok = len(cp) == 1 and cp[0].src == ("BUF(p1)", Lin()) and cp[0].dst[1] == Lin() and cp[0].n == L("p1") and cp[0].dst[0] != "BUF(p1)"
+            CL = r"(?:core::str::<impl str>::len\(repr::heap_buffer::HeapBuffer::as_str\(p1\)\)|repr::heap_buffer::HeapBuffer::len\(p1\))"
+            CC = r"(?:repr::heap_buffer::internal::Capacity::as_usize\(ok\(repr::heap_buffer::internal::Capacity::new\(p2\)\)\)|p2)"
+            def is_len(x):
+                if x == L("p1"):
+                    return True
+                ws = list(x.t.items())
+                return contract and x.c == 0 and len(ws) == 1 and ws[0][1] == 1 and (re.match(r"^core::cmp::(?:Ord::)?min\(%s, %s\)$" % (CL, CC), ws[0][0]) or re.match(r"^core::cmp::(?:Ord::)?min\(%s, %s\)$" % (CC, CL), ws[0][0])) is not None
+            ok = len(cp) == 1 and cp[0].src == ("BUF(p1)", Lin()) and cp[0].dst[1] == Lin() and is_len(cp[0].n) and cp[0].dst[0] != "BUF(p1)"
             ctx.ob(rule, b.path, "transition-copies-whole-text", ok, how="old storage + 0 -> new storage + 0, len(self) bytes", detail="realloc's layout transition copies %s" % show(cp))
             pub = [x for x in ls if x[0].endswith("::set_len")]
-            ctx.ob(rule, b.path, "transition-publishes-len", len(pub) == 1 and pub[0][2] == L("p1") and pub[0][1] != "p1", how="new buffer's length = len(self)", detail="realloc's layout transition publishes %s on %s" % ([str(x[2]) for x in pub], [x[1] for x in pub]))
+            ctx.ob(rule, b.path, "transition-publishes-len", len(pub) == 1 and is_len(pub[0][2]) and pub[0][1] != "p1", how="new buffer's length = len(self)", detail="realloc's layout transition publishes %s on %s" % ([str(x[2]) for x in pub], [x[1] for x in pub]))
+
+
+_LEN_OF = r"(?:repr::Repr::len|repr::heap_buffer::HeapBuffer::len|LeanString::len)\((p\d+)\)"
+
+
+def realloc_sites_keep_text(ctx, rule=None):
+    """`HeapBuffer::realloc`'s contract: the new capacity is at least the current length (otherwise
+    the text would not fit the block it is moved to).  Every call site hands over the growth rule's
+    value for (len, additional) - which is >= len - or max(len, requested), or sits behind a
+    comparison that says so.  -> True when every site does (the copy inside realloc may then rely
+    on it); with `rule`, one obligation per site."""
+    from guards import inlined_sites
+    F = ctx.F
+    allok, n = True, 0
+    for path, root in F.bodies.items():
+        if path not in anchors(F) or root.j["kind"] == "closure" or path.startswith("repr::heap_buffer::HeapBuffer::realloc"):
+            continue
+        for st in inlined_sites(root, lambda nm: nm == "repr::heap_buffer::HeapBuffer::realloc"):
+            n += 1
+            recv, cap = st.desc(0), st.desc(1)
+            ok = False
+            m = re.match(r"^repr::heap_buffer::amortized_growth\(%s, .*\)$" % _LEN_OF, cap)
+            if m and m.group(1) == recv:
+                ok = True      # max(len*3/2, len + add) >= len (C12-formula decides the formula)
+            m = re.match(r"^core::cmp::(?:Ord::)?max\(%s, .*\)$" % _LEN_OF, cap) or re.match(r"^core::cmp::(?:Ord::)?max\(.*, %s\)$" % _LEN_OF, cap)
+            if m and m.group(1) == recv:
+                ok = True
+            for g in st.guards():
+                if g[0] == "cmp2" and ((g[1] in ("Ge", "Gt") and g[2] == cap and re.match("^%s$" % _LEN_OF, g[3])) or (g[1] in ("Le", "Lt") and g[3] == cap and re.match("^%s$" % _LEN_OF, g[2]))):
+                    ok = True
+            allok = allok and ok
+            if rule:
+                ctx.ob(rule, path, "realloc(capacity>=len):" + st.label(), ok, line=st.line, how="new capacity is amortized_growth(len, ..) / max(len, ..) / compared against len",
+                       detail="%s reallocates %s to %s: nothing shows the new capacity is at least the current length (realloc's contract; the text is moved into the new block whole)" % (path, recv, cap))
+    if rule:
+        ctx.need(rule, "crate", "realloc-sites", n >= 2, "only %d realloc call sites" % n, how="%d realloc call sites" % n)
+    return allok and n > 0
 
 
 def rule_retain_loop(ctx, rule="T9-retain"):
